@@ -167,7 +167,8 @@ class Adapter(EnvAdapter):
         if k["generator"] == "default":
             # the registered default: Connector() builds its own RandomWalkGenerator(10, 10), time_limit 50
             env = Connector()
-            env._generator = _witness_generator(env._generator)
+            if hasattr(env, "_generator"):      # attach the solvability witness when the generator is where it used to be
+                env._generator = _witness_generator(env._generator)
             return env
         if k["generator"] == "random_walk":
             gen = _witness_generator(RandomWalkGenerator(grid_size=k["grid_size"], num_agents=k["num_agents"]))
@@ -193,7 +194,8 @@ class Adapter(EnvAdapter):
         if k.get("reward"):
             extra = dict(connected_reward100=int(round(k["reward"][0] * 100)), timestep_reward100=int(round(k["reward"][1] * 100)))
         return dict(extra, grid_size=k["grid_size"], num_agents=k["num_agents"], time_limit=k["time_limit"],
-                    generator=k["generator"], witness=k["generator"] not in ("uniform", "all"))
+                    generator=k["generator"],
+                    witness=k["generator"] not in ("uniform", "all") and (k["generator"] != "default" or hasattr(env, "_generator")))
 
     # ---- probes ---------------------------------------------------------------------------
     def _collision_actions(self, env, state, rng, base):
